@@ -226,6 +226,21 @@ def u3_problems(ev):
     return out
 
 
+def getitem_problems(ev):
+    """indexing a well-formed object with an index NumPy accepts for its shape must produce the element object (C02: objects produced by every
+    public route; the other properties' workloads take operands this way)"""
+    if ev.op != '__getitem__' or ev.kind != 'method' or ev.exc is None or not ev.pre or ev.pre[0] is None or len(ev.args) != 1:
+        return []
+    p = ev.pre[0]
+    if u1_problems(p) or not p.codes:
+        return []
+    try:
+        np.empty(tuple(p.shape))[ev.args[0]]
+    except Exception:
+        return []           # (an index error of the caller)
+    return [('getitem_raises', 'indexing %s of shape %r with %.60r raised %s: %s' % (R.dtype_fxp(*p.fmt()), tuple(p.shape), ev.args[0], type(ev.exc).__name__, str(ev.exc)[:120]))]
+
+
 def subjects(ev, Fxp):
     """(role, snap) of the objects produced / written by this event."""
     res = []
@@ -253,6 +268,9 @@ def cross_judges(ctx, exclude=()):
                             ctx.cross_observation('U4', '%s@%s' % (tag, ev.op), p[1])
                     elif 'U1' not in exclude:
                         ctx.cross_observation('U1', '%s@%s' % (tag, ev.op), p[1])
+        if 'U1' not in exclude:
+            for p in getitem_problems(ev):
+                ctx.cross_observation('U1', '%s@%s' % (p[0], ev.op), p[1])
         if 'U2' not in exclude:
             for p in u2_frame_problems(ev, Fxp) + u2_alias_problems(ev, Fxp) + u2_container_problems(ev):
                 ctx.cross_observation('U2', '%s@%s' % (p[0], ev.op), p[1])
